@@ -375,7 +375,9 @@ def run(ctx):
             for key in inst.get("slots", []):
                 inst["coq"][key] = (bl[pos] if bl is not None and pos < len(bl) else None)
                 pos += 1
-            if bl is None:
+            if bl is None and o.startswith("TIMEOUT"):
+                inst["coq_timeout"] = True
+            elif bl is None:
                 inst["coq_error"] = o[-800:]
     # ---- decide
     stat = {}
@@ -388,6 +390,11 @@ def run(ctx):
         ctx.coverage["obligations"] += 1
         c = inst["coq"]
         inst["model_match"] = c.get("model")
+        if inst.get("coq_timeout"):
+            # the chunk of validator instances hit the time limit (loaded machine): undecided, counted, no verdict
+            ctx.coverage["obligations"] -= 1
+            stat["validator-time-limit"] = stat.get("validator-time-limit", 0) + 1
+            continue
         if "coq_error" in inst:
             ctx.violation("coq-case-error:" + ";".join(inst["polar"]), {"bases": inst["polar"], "log": inst["coq_error"]},
                           "generated validator instance does not compile", no_input=True)
